@@ -318,3 +318,27 @@ Section TraceLocalProofs.
     split; rewrite app_assoc; [rewrite Da|rewrite Db]; apply firstn_skipn.
   Qed.
 End TraceLocalProofs.
+
+(* the traceback loops only read the traceback matrix inside the rectangle they start from *)
+Lemma trace_global_ext {sym} (tb1 tb2 : nat -> nat -> Z) (A B : list sym) : forall fuel i j ra rb,
+  (forall i' j', i' <= i -> j' <= j -> tb1 i' j' = tb2 i' j') ->
+  trace_global tb1 A B fuel i j ra rb = trace_global tb2 A B fuel i j ra rb.
+Proof.
+  induction fuel as [|f IH]; intros i j ra rb H; cbn [trace_global]; [reflexivity|].
+  destruct ((i =? 0) && (j =? 0)); [reflexivity|].
+  rewrite (H i j (le_n _) (le_n _)).
+  destruct (tb2 i j =? 3)%Z; [apply IH; intros; apply H; lia|].
+  destruct (tb2 i j =? 1)%Z; apply IH; intros; apply H; lia.
+Qed.
+
+Lemma trace_local_ext {sym} (tb1 tb2 : nat -> nat -> Z) (A B : list sym) : forall fuel i j ra rb,
+  (forall i' j', i' <= i -> j' <= j -> tb1 i' j' = tb2 i' j') ->
+  trace_local tb1 A B fuel i j ra rb = trace_local tb2 A B fuel i j ra rb.
+Proof.
+  induction fuel as [|f IH]; intros i j ra rb H; cbn [trace_local]; rewrite (H i j (le_n _) (le_n _));
+    [reflexivity|].
+  destruct (tb2 i j =? 0)%Z; [reflexivity|].
+  destruct (tb2 i j =? 3)%Z; [apply IH; intros; apply H; lia|].
+  destruct (tb2 i j =? 1)%Z; [apply IH; intros; apply H; lia|].
+  destruct (tb2 i j =? 2)%Z; [apply IH; intros; apply H; lia|reflexivity].
+Qed.
